@@ -777,7 +777,9 @@ _WHITESPACE_CHARS = [ord(b"\t"), ord(b" ")]
 
 
 def _parse_string(value: bytes) -> bytes:
-    value_array = bytearray(value.strip())
+    # git's config parser treats only SP, TAB, CR and LF as whitespace; VT and
+    # FF at the ends of an unquoted value are part of it.
+    value_array = bytearray(value.strip(b" \t\r\n"))
     ret = bytearray()
     whitespace = bytearray()
     in_quotes = False
